@@ -169,6 +169,7 @@ func (s *c12StorageRun) nontrivial(q *c12Req, why string) {
 	if q.M != nil {
 		mt, auth = q.M.Type, q.M.Auth
 	}
+	s.r.Eval(1) // one judged request / matrix cell
 	s.r.Nontrivial(fmt.Sprintf("%s|%s|%s|%s|%s|%s|%v|%d|%d|%s", why, q.Kind, q.Op, q.RawCall, q.KeyKind, mt, auth, c12Depth(q.N), tokDepth, q.Form))
 }
 
